@@ -1,10 +1,212 @@
 /-
-  TwProofs.C07 — property theorems (see DESIGN.md, section 6).
+  TwProofs.C07 — each `@component` use renders the component file with its own arguments and slots.
+
+  In the model every use written in a page has its own allocation number `cid`; the loader
+  (`applyComponents`, transcription of applyComponentToProgram / Program.ApplyComponent after the
+  "per-use program" fix) attaches to each number the statements of the component file with that
+  use's slot bodies filled in.  Theorems: the program attached to a use is a function of that
+  use alone; evaluation binds the arguments in a new innermost scope (the surrounding variables
+  stay visible) and hands the caller's environment back; slot placeholders render the passed
+  body or nothing; the load-time errors.
 -/
 import TwModel
 import TwSpec
+import TwProofs.Lemmas.EvalStep
+import TwProofs.Lemmas.LoadWhole
 
 namespace Tw.C07
 open Tw
+
+/-! ### evaluation of one use -/
+
+/-- a use renders its own program (looked up by the use's allocation number) with the
+    arguments — evaluated at the place of use, in alphabetical key order — bound in a new scope on
+    top of the caller's environment, and gives the caller's environment back -/
+theorem component_renders_its_program (f : Nat) (c : Ctx) (env : Env) (t : Token) (name : Bytes) (cid : Nat)
+    (pairs : List (Bytes × Expr)) (prog : List Stmt) (hp : lookupNat c.comps cid = some prog) :
+    evalStmt (f + 1) c env (.component t name (some pairs) cid) =
+      (evalPairs f c env (sortByKey pairs)).bind fun kvs =>
+      (bindArgs env.push kvs t.errorLine).bind fun env1 =>
+      (evalProg f c env1 prog []).bind fun r => .ok ({ text := r.1 }, env) := by
+  rw [evalStmt_succ]
+  simp only [stmtBody, hp, calleesAt_pairs, calleesAt_prog]
+
+theorem component_without_arguments (f : Nat) (c : Ctx) (env : Env) (t : Token) (name : Bytes) (cid : Nat)
+    (prog : List Stmt) (hp : lookupNat c.comps cid = some prog) :
+    evalStmt (f + 1) c env (.component t name none cid) =
+      (evalProg f c env.push prog []).bind fun r => .ok ({ text := r.1 }, env) := by
+  rw [evalStmt_succ]
+  simp only [stmtBody, hp, calleesAt_prog, Res.bind_ok, bindArgs]
+
+/-- arguments go into the new innermost scope only … -/
+theorem bindArgs_shape : ∀ (kvs : List (Bytes × Val)) (s : List (Bytes × Val)) (outer : Env) (line : Nat) (env1 : Env),
+    bindArgs (s :: outer) kvs line = .ok env1 → ∃ s', env1 = s' :: outer
+  | [], s, outer, _, env1, h => by simp [bindArgs] at h; exact ⟨s, h.symm⟩
+  | (k, v) :: r, s, outer, line, env1, h => by
+    unfold bindArgs at h
+    split at h
+    · rename_i env' hset
+      have : env' = mapSet s k v :: outer := by
+        unfold Env.set at hset
+        split at hset
+        · cases hset
+        · split at hset
+          · split at hset
+            · cases hset
+            · cases hset; rfl
+          · cases hset; rfl
+      rw [this] at h
+      exact bindArgs_shape r _ outer line env1 h
+    · cases h
+
+/-- … so every variable of the place of use that is not an argument name is still visible inside -/
+theorem surrounding_variables_visible (kvs : List (Bytes × Val)) (env env1 : Env) (line : Nat) (x : Bytes)
+    (h : bindArgs env.push kvs line = .ok env1) :
+    ∃ s', env1 = s' :: env ∧ (mapGet s' x = none → env1.get x = env.get x) := by
+  obtain ⟨s', hs'⟩ := bindArgs_shape kvs [] env line env1 h
+  refine ⟨s', hs', fun hn => ?_⟩
+  rw [hs']
+  simp [Env.get, hn]
+
+/-! ### slots -/
+
+/-- a placeholder whose body was passed renders that body; one that got none renders nothing -/
+theorem filled_slot_renders_body (f : Nat) (c : Ctx) (env : Env) (t : Token) (n : Bytes) (blk : List Stmt) :
+    evalStmt (f + 1) c env (.slot t n (some blk)) = (evalBlock f c env blk).bind fun r => .ok ({ text := r.1.text }, r.2) := by
+  rw [evalStmt_succ]
+  simp only [stmtBody, calleesAt_block]
+
+theorem empty_slot_renders_nothing (f : Nat) (c : Ctx) (env : Env) (t : Token) (n : Bytes) :
+    evalStmt (f + 1) c env (.slot t n none) = .ok ({}, env) := rfl
+
+/-- `fillSlot` gives the body to the first top-level placeholder of that name and changes nothing else -/
+theorem fillSlot_fills_first (pre post : List Stmt) (t : Token) (n : Bytes) (bd : Option (List Stmt)) (body : List Stmt)
+    (hpre : ∀ s ∈ pre, ∀ t' n' bd', s = Stmt.slot t' n' bd' → n' ≠ n) :
+    fillSlot (pre ++ .slot t n bd :: post) n body = some (pre ++ .slot t n (some body) :: post) := by
+  induction pre with
+  | nil => simp [fillSlot]
+  | cons s r ih =>
+    have ih' := ih (fun s' hs' => hpre s' (List.mem_cons_of_mem _ hs'))
+    cases s with
+    | slot t' n' bd' =>
+      have hne : (n' == n) = false := by simpa using hpre _ List.mem_cons_self t' n' bd' rfl
+      simp only [List.cons_append, fillSlot, hne, Bool.false_eq_true, if_false, ih', Option.map_some]
+    | _ => simp only [List.cons_append, fillSlot, ih', Option.map_some]
+
+/-! ### every use is independent -/
+
+/-- the program attached to one use: the component file, parsed afresh, with this use's slots -/
+def programOf (fs : Fs) (c : Cfg) (path : Bytes) (use : CompUse) : Except Fail (List Stmt) :=
+  match readFile fs (templatePath c use.name) with
+  | .notExist => .error (failOf "ErrUndefinedComponent" use.tok.errorLine [use.name] path)
+  | .otherErr => .error (osFail use.tok.errorLine (templatePath c use.name))
+  | .ok _ =>
+    match parseFile fs (templatePath c use.name) compBase with
+    | .error f => .error f
+    | .ok comp => applyComponent use comp path
+
+/-- **independence**: the loader attaches to every use — in order, under the use's own number — the
+    program computed from that use alone; nothing of one use (its slot bodies, its arguments)
+    enters the program of another, also when they name the same component file -/
+theorem each_use_gets_its_own_program (fs : Fs) (c : Cfg) (path : Bytes) :
+    ∀ (uses : List CompUse) (acc out : List (Nat × List Stmt)),
+      uses.foldlM (fun acc use =>
+        match readFile fs (templatePath c use.name) with
+        | .notExist => Except.error (failOf "ErrUndefinedComponent" use.tok.errorLine [use.name] path)
+        | .otherErr => Except.error (osFail use.tok.errorLine (templatePath c use.name))
+        | .ok _ =>
+          match parseFile fs (templatePath c use.name) compBase with
+          | .error f => Except.error f
+          | .ok comp =>
+            match applyComponent use comp path with
+            | .error f => Except.error f
+            | .ok stmts => Except.ok (acc ++ [(use.cid, stmts)])) acc = .ok out →
+      ∃ progs : List (List Stmt), progs.length = uses.length ∧
+        out = acc ++ (uses.zip progs).map (fun x => (x.1.cid, x.2)) ∧
+        ∀ i (hi : i < uses.length) (hj : i < progs.length), programOf fs c path uses[i] = .ok progs[i]
+  | [], acc, out, h => by
+    simp only [List.foldlM_nil, pure, Except.pure] at h
+    cases h
+    exact ⟨[], rfl, by simp, fun i hi => by cases hi⟩
+  | use :: rest, acc, out, h => by
+    simp only [List.foldlM_cons, bind, Except.bind] at h
+    cases hr : readFile fs (templatePath c use.name) with
+    | notExist => rw [hr] at h; cases h
+    | otherErr => rw [hr] at h; cases h
+    | ok content =>
+      rw [hr] at h
+      simp only [] at h
+      cases hpf : parseFile fs (templatePath c use.name) compBase with
+      | error f => rw [hpf] at h; cases h
+      | ok comp =>
+        rw [hpf] at h
+        simp only [] at h
+        cases hac : applyComponent use comp path with
+        | error f => rw [hac] at h; cases h
+        | ok stmts =>
+          rw [hac] at h
+          simp only [] at h
+          obtain ⟨progs, hlen, hout, hall⟩ := each_use_gets_its_own_program fs c path rest _ out h
+          refine ⟨stmts :: progs, by simp [hlen], by rw [hout]; simp, ?_⟩
+          intro i hi hj
+          cases i with
+          | zero => simp [programOf, hr, hpf, hac]
+          | succ j => simpa using hall j (by simpa using hi) (by simpa using hj)
+
+theorem applyComponents_is_per_use (fs : Fs) (c : Cfg) (path : Bytes) (uses : List CompUse) (out : List (Nat × List Stmt))
+    (h : applyComponents fs c uses path = .ok out) :
+    ∃ progs : List (List Stmt), progs.length = uses.length ∧
+      out = (uses.zip progs).map (fun x => (x.1.cid, x.2)) ∧
+      ∀ i (hi : i < uses.length) (hj : i < progs.length), programOf fs c path uses[i] = .ok progs[i] := by
+  unfold applyComponents at h
+  obtain ⟨progs, h1, h2, h3⟩ := each_use_gets_its_own_program fs c path uses [] out h
+  exact ⟨progs, h1, by simpa using h2, h3⟩
+
+/-! ### load-time errors -/
+
+/-- a slot the component does not declare -/
+theorem undeclared_slot_is_reported (use : CompUse) (comp : Program) (path : Bytes) (sl : SlotUse)
+    (hdup : findDuplicateSlot use.slots = none) (hone : use.slots = [sl]) (hmiss : fillSlot comp.stmts sl.name sl.body = none)
+    (hname : sl.name.isEmpty = false) :
+    applyComponent use comp path = .error (failOf "ErrSlotNotDefined" comp.tok.errorLine [sl.name, use.name] path) := by
+  unfold applyComponent
+  rw [hdup, hone]
+  simp [List.foldlM, hmiss, hname, bind, Except.bind]
+
+/-- a slot passed twice -/
+theorem duplicate_slot_is_reported (use : CompUse) (comp : Program) (path : Bytes) (dn : Bytes) (times : Nat)
+    (hdup : findDuplicateSlot use.slots = some (dn, times)) :
+    applyComponent use comp path =
+      .error (failOf "ErrDuplicateSlotUsage" comp.tok.errorLine [dn, natToBytes times, use.name] path) := by
+  unfold applyComponent
+  rw [hdup]
+
+/-- a missing component file, naming the component -/
+theorem missing_component_is_reported (fs : Fs) (c : Cfg) (path : Bytes) (use : CompUse)
+    (h : readFile fs (templatePath c use.name) = .notExist) :
+    programOf fs c path use = .error (failOf "ErrUndefinedComponent" use.tok.errorLine [use.name] path) := by
+  unfold programOf
+  rw [h]
+
+/-- `~name` means `components/name` -/
+theorem tilde_means_components (p : PS) (rest : Bytes) (h : p.cur.lit = 126 :: rest) :
+    (aliasPath p "components").1 = b "components" ++ [47] ++ rest := by
+  unfold aliasPath
+  simp [h]
+
+/-! ### an instance through loader and evaluator: one component used three times -/
+
+def demoFs : Fs :=
+  [ (b "templates", .dir), (b "templates/components", .dir),
+    (b "templates/components/card.tw.html", .file (b "[{{ title }}:@slot|@slot(\"foot\")]")),
+    (b "templates/page.tw.html", .file (b "{{ x = 5 }}@component(\"~card\", { title: \"A\" })@slot one @end@end@component(\"~card\", { title: \"B\" })@end@each(n in [1, 2])@component(\"~card\", { title: n + x })@slot(\"foot\")f{{ n }}@end@end@end")) ]
+
+example :
+    (match newTemplate { fs := demoFs } none with
+      | (w, .ok t) =>
+        (match tplString w t (b "page") [] with
+          | .ok out => out == b "[A: one |][B:|][6:|f1][7:|f2]"
+          | _ => false)
+      | _ => false) = true := by decide +kernel
 
 end Tw.C07
